@@ -50,6 +50,16 @@ def plain_inputs(case):
     return out
 
 
+def ggh_coeff_ref(p, i):
+    """independent derivation of the i-th subset-sum coefficient (libsnark's nothing-up-my-sleeve generator)"""
+    import hashlib, struct
+    nb = p.bit_length(); it = 0
+    while True:
+        v = int.from_bytes(hashlib.sha512(struct.pack("<QQ", i, it)).digest(), "little") & ((1 << nb) - 1)
+        if v < p: return v
+        it += 1
+
+
 def run(tier, seed):
     t0 = time.time()
     rnd = random.Random(seed)
@@ -144,7 +154,7 @@ def run(tier, seed):
                 nmism += 1
                 viol.append(dict(kind="correspondence", concrete=False, what="model and implementation traces of the hash gadget differ", detail=json.dumps(dict(cfg=c["cfg"], prog=c["prog"], ins=c["ins"]))[:1200]))
     # subset-sum hash
-    for p in (progs.BN, 65537):
+    for p in (progs.BN, 65537, progs.BLS, progs.C25519):
         cs = []
         for _ in range(5 if tier == "quick" else 40):
             n = rnd.choice([1, 2, 5, 9])
@@ -160,6 +170,12 @@ def run(tier, seed):
         for c, r in zip(cs, recs):
             if r.get("ggh_coeffs"): c["prog"][-1][2] = r["ggh_coeffs"]
             stats["ggh"] += 1
+            # the coefficients themselves: SHA-512 of (i, counter), masked to the bit length of the prime, first value below the prime
+            if r.get("ggh_coeffs"):
+                want_cf = [ggh_coeff_ref(p, i) for i in range(len(r["ggh_coeffs"]))]
+                if list(r["ggh_coeffs"]) != want_cf:
+                    bad("ggh-coefficients", "the subset-sum coefficients derived for the field of %d bits differ from the SHA-512 definition (first difference at index %d)" % (p.bit_length(), [a_ != b_ for a_, b_ in zip(r["ggh_coeffs"], want_cf)].index(True)),
+                        dict(cfg=c["cfg"], prog=c["prog"][:2], ins=c["ins"]))
             if r["exn"] is None:
                 bits = [c["ins"][s[3]] if s[0] == "input" else s[2][1] for s in c["prog"] if s[0] in ("input", "const")]
                 want = poseidon_ref.ggh(p, r["ggh_coeffs"], bits)
